@@ -280,7 +280,7 @@ pub fn run_phase(ph: &Phase, cfg: &Config) -> PhaseReport {
                     let mut count_in_item = 0u64;
                     let want_samples = it == sample_item || it == 0 || it + 1 == items.len();
                     loop {
-                        cx.sampling = want_samples && item_samples < 2 && (first || count_in_item == 1 + (cfg.seed % 97));
+                        cx.sampling = want_samples && item_samples < 2 && count_in_item < 5000;
                         let forced_len = cx.forced.len();
                         let v = run_one(&ph.body, unit, &mut cx);
                         let len = cx.trail.len();
@@ -294,7 +294,7 @@ pub fn run_phase(ph: &Phase, cfg: &Config) -> PhaseReport {
                             st.nontrivial += 1;
                         }
                         if let Some(sv) = cx.sample.take() {
-                            if st.samples.len() < 4 {
+                            if st.samples.len() < 4 && (first || (cx.nontrivial && count_in_item > cfg.seed % 97)) {
                                 st.samples.push(json!({"unit": unit, "choices": cx.choices(), "case": sv}));
                                 item_samples += 1;
                             }
